@@ -303,5 +303,5 @@ def run_shard(ctx):
         if stats['text']:
             cl.append('text-part')
         ctx.stats.case(key=src, nontrivial=nt, classes=cl,
-                       sample={'src': src, 'lang': doc[0], 'seqs': doc[1]} if nt and ctx.stats.evaluations % 300 == 0 else None)
+                       sample={'src': src, 'lang': doc[0], 'seqs': doc[1]})
     hyp_run(ctx, doc_s, one, ctx.n(20000, 400000))
